@@ -15,7 +15,7 @@ class H:
     """A Kani harness = one contract obligation on a real function."""
 
     def __init__(self, name, functions, kind='proof', bound=None, features='', tier='quick',
-                 timeout=1200, note=''):
+                 timeout=1200, note='', mem_gb=24):
         self.name = name
         self.functions = functions      # the /repo functions under contract
         self.kind = kind                # proof | bounded | gc
@@ -24,6 +24,7 @@ class H:
         self.tier = tier                # quick => run in both tiers; thorough => thorough only
         self.timeout = timeout
         self.note = note
+        self.mem_gb = mem_gb            # address-space limit of the cargo-kani process tree (GB)
 
 
 def ensure_playback_files(reset=False):
@@ -116,7 +117,8 @@ def run_group(features, harnesses, jobs=8):
         cmd += ['--harness', h.name]
         names[h.name] = h
     info = {'cmd': ' '.join(cmd), 'features': features or '(default)'}
-    rc, out, wall, timed_out = run(cmd, timeout=to * max(1, (len(harnesses) + jobs - 1) // jobs) + 900, mem_gb=24)
+    rc, out, wall, timed_out = run(cmd, timeout=to * max(1, (len(harnesses) + jobs - 1) // jobs) + 900,
+                                   mem_gb=max(h.mem_gb for h in harnesses))
     info['wall_s'] = round(wall, 1)
     obs = []
     res = parse_terse(out)
